@@ -66,6 +66,14 @@ def plan_line(img, frames):
         s += [e.get("ty", 0), e.get("dim_shift", 0), e.get("bits", img.get("bits", 8)), int(e.get("alpha_assoc", False))]
     an = img.get("anim")
     s += [0] if not an else [1] + list(an)
+    if img.get("icc_profile"):              # (ans, plan mode, profile bytes): embedded through the ICC encoder
+        a, m, prof = img["icc_profile"]
+        s += ["icc", int(a), m, bytes(prof).hex()]
+    if img.get("icc"):                      # optional (C15): already encoded ICC byte stream
+        s += ["iccraw", len(img["icc"])] + list(img["icc"])
+    for k, e in enumerate(img["ecs"]):      # optional (C15): f16 bit patterns r g b solidity
+        if e.get("spot"):
+            s += ["spot", k] + list(e["spot"])
     s += ["frames", len(frames)] + [frame_str(img, f) for f in frames]
     return " ".join(map(str, s))
 
